@@ -328,9 +328,6 @@ type Keeper interface {
 // If a sentinel ComparableDist with a nil Comparable is used by the Keeper to mark the
 // maximum distance, NearestSet will remove it before returning.
 func (t *Tree) NearestSet(k Keeper, q Comparable) {
-	if t.Root == nil {
-		return
-	}
 	t.Root.searchSet(q, k)
 
 	// Check whether we have retained a sentinel
